@@ -20,10 +20,10 @@ ASSUMPTIONS = _x1.X1_ASSUMPTIONS + ["whether a checkpoint after clear_checkpoint
 
 MENU = [("pause",), ("dpause",), ("suspend", "none"), ("suspend", "both")]
 SPECS = {
-    "quick": [spec("clearcp", MENU, bound=1, k=k) for k in range(5)] + [spec("lifecycle", MENU, bound=1)],
+    "quick": [spec("clearcp", MENU, bound=1, k=k) for k in range(5)] + [spec("lifecycle", MENU, bound=1), spec("clearcp2", MENU, bound=1)],
     "thorough": [spec("clearcp", MENU, bound=2, k=k) for k in range(5)]
     + [spec("clearcp", MENU, bound=1, k=k, a=1) for k in range(5)]
-    + [spec("lifecycle", MENU, bound=2)],
+    + [spec("lifecycle", MENU, bound=2), spec("clearcp2", MENU, bound=2), spec("clearcp2", MENU, bound=1, a=1)],
 }
 
 
@@ -38,6 +38,8 @@ def oracle(scn, obs, ref, schedule):
     for kind, idx, res in engine.interruptions(obs):
         if res != "no" or kind == "suspend-late":
             continue  # (a request that lands when the plan is already over interrupts nothing)
+        if any(t[0] == "plan_end" and t[1] == "returned" for t in tl[:idx]):
+            continue  # likewise: the plan generator had already returned when the request took effect
         # the call this interruption belongs to
         span = next(((c, s, r) for c, s, r in spans if s is not None and s <= idx and (r is None or idx < r)), None)
         if span is None:
